@@ -573,7 +573,9 @@ def check(ctx):
     def ref_binom(n, p_, lo_, hi_):
         q = Fraction(p_)
         return float(sum(math.comb(n, k) * q ** k * (1 - q) ** (n - k) for k in range(lo_, hi_ + 1)))
-    for n, p_, x in [(1030, 0.5, 515), (1100, 0.999, 1099), (2000, 0.5, 1000)] + ([(5000, 0.3, 1500), (1500, 0.01, 15)] if not ctx.quick() else []):
+    # (degenerate p = 0 / 1 with a large n as well: all mass on one point, whichever formula serves that size)
+    for n, p_, x in [(1030, 0.5, 515), (1100, 0.999, 1099), (2000, 0.5, 1000), (1500, 1, 1500), (1001, 0, 0), (1500, 1, 1499), (1200, 0, 1)] + \
+                    ([(5000, 0.3, 1500), (1500, 0.01, 15), (3000, 1, 3000)] if not ctx.quick() else []):
         for text, exp in (("P(Binomial(%d, %s) = %d)" % (n, ktext(p_), x), ref_binom(n, p_, x, x)),
                           ("P(Binomial(%d, %s) <= %d)" % (n, ktext(p_), x), ref_binom(n, p_, 0, x))):
             r = run(text)
